@@ -344,11 +344,14 @@ def run(cx):
     # ---------------- R04e
     got = cx.func(REL, "TElement.get_orig_text", "R04e")
 
+    inl_of = {}
+
     def line_splitters(f, arg):
         # private helpers expanded in place: the cut may have been moved into one (`lines = self._src_lines(text)`)
         from sa.inline import inlined
         from sa.guards import expand_at
         f, _u = inlined(repo.modules[REL], f, nested=True)
+        inl_of[getattr(f, 'name', arg)] = f
         out = []
         for c in walk_local(f):
             if isinstance(c, ast.Call) and isinstance(c.func, ast.Attribute) and c.func.attr in ("split", "splitlines", "rsplit", "partition") \
@@ -362,7 +365,7 @@ def run(cx):
     cx.ob("R04e", w[0][0], ok, f"both cut a str text with .{w[0][1]}: line numbers mean the same in both" if ok else
           f"the tokenizer numbers lines by .{w[0][1]} but get_orig_text by .{r[0][1]}: for texts where the two differ (\\x0c, \\x0b, lone \\r, \\x85, \\u2028 ...) every later span points at the wrong line")
     # the per-line transformation in the tokenizer may only remove characters at the end of a line (columns keep their meaning)
-    gens = [g for g in walk_local(tok) if isinstance(g, ast.GeneratorExp) and w and w[0][0] in list(ast.walk(g))]
+    gens = [g for g in walk_local(inl_of.get(tok.name, tok)) if isinstance(g, (ast.GeneratorExp, ast.ListComp)) and w and w[0][0] in list(ast.walk(g))]
     ok = len(gens) == 1 and isinstance(gens[0].elt, ast.Call) and isinstance(gens[0].elt.func, ast.Attribute) and gens[0].elt.func.attr == "rstrip" and not gens[0].generators[0].ifs \
         and norm(gens[0].elt.func.value) == norm(gens[0].generators[0].target)
     if not gens:
